@@ -61,7 +61,7 @@ def req_tokens(reqs):
     return [f"set:{cp(p)}:{cp(v)}" if k == "set" else f"{k}:{cp(p)}" for k, p, v in reqs]
 
 
-def expected_result(F, kind, path, val, mode):
+def expected_result(F, kind, path, val, mode, xerr=None):
     """what the caller must get, from the settings simulator.  Returns a list of acceptable (prefix, exact?) pairs."""
     err = lambda text, exact=True: ("exc:MiniconfException:Error:" + (jstr(text) if exact else jstr(text)[:-1]), exact)
     if kind == "dump":
@@ -70,6 +70,11 @@ def expected_result(F, kind, path, val, mode):
         r = F.set(path, val)
         if r[0] == "ok":
             return [('ok:"OK"', True)]
+        # a (de)serializer error carries serde's text: miniconf's own Display of the error the same write gives on a copy of
+        # the settings, computed by the harness outside the client (`xerr`), has to arrive whole
+        full = (xerr or {}).get((cp(PREFIX + "/settings" + path), cp(val)))
+        if r[0] != "err" and full is not None and full.startswith(display(r)):
+            return [err(full)]
         return [err(display(r), exact=(r[0] == "err"))]
     c = F.classify(path)
     if c[0] == "err":
@@ -168,6 +173,7 @@ def run(rep, rng, tier):
             pl_["skip"] = True
             continue
         recs = parse_trace(out)
+        pl_["xerr"] = next((r_.get("xerr", {}) for r_ in recs if r_["k"] == "END"), {})
         # everything the device sent after the initial dump, in wire order
         msgs = []
         seen_req = False
@@ -232,7 +238,7 @@ def run(rep, rng, tier):
             if kind != "dump" and (rt != RESP or len(cd) != 32):
                 return f"request {k}: response topic {rt!r} / correlation data {cd!r}"
         for k, (kind, path, val) in enumerate(pl_["reqs"]):
-            want = expected_result(F, kind, path, val, pl_["mode"])
+            want = expected_result(F, kind, path, val, pl_["mode"], pl_.get("xerr"))
             got = res.get(f"r{k}")
             if got is None:
                 return f"no result for request {k}"
